@@ -28,19 +28,20 @@ INVARIANTS = [
     "C12_DeferredResultsStayLazy", "C12_ComputeMakesEager", "C12_InputNeverMaterialised", "C20_SameSeedSameResample",
 ]
 PROPERTIES = ["C14_QueriesArePure", "C14_TransformWritesOnlyBookkeeping", "C14_RotBootDoNotTouchModel",
-              "C18_RefitResorts", "C13_SnapshotFaithful"]
+              "C18_RefitResorts", "C13_SnapshotFaithful", "C13_RotSnapshotFaithful"]
 DEVIATIONS = ["FitAppends", "RefitKeepsSorted", "TransformLabelsFromFit", "QueryReadsTransformCoords",
               "ComputeSortsAgain", "DeserializeDropsSorted", "RotRenamesShared", "RotTransformUnsorted",
-              "BootIgnoresSeed", "ComputeLoadsInput"]
+              "BootIgnoresSeed", "ComputeLoadsInput", "RotDeserializeDropsSorted"]
 
 
 def cfg_lines(cap, eager, daskin, checknans, dev=None, datasets="DS3", nitems="NI3", maxsnaps=1,
-              maxdepth=100, emit=False):
+              maxdepth=100, emit=False, rotsnaps=False):
     b = lambda x: "TRUE" if x else "FALSE"  # noqa: E731
     L = ["SPECIFICATION Spec", "CONSTANTS",
          f" Datasets <- {datasets}", f" NItems <- {nitems}", " Seeds <- SeedSet", f" Cap <- {cap}",
          f" Eager = {b(eager)}", f" DaskInput = {b(daskin)}", f" CheckNans = {b(checknans)}",
-         f" Deviations <- {'Dev' + dev if dev else 'NoDev'}", f" MaxSnaps = {maxsnaps}", f" MaxDepth = {maxdepth}"]
+         f" Deviations <- {'Dev' + dev if dev else 'NoDev'}", f" MaxSnaps = {maxsnaps}", f" MaxDepth = {maxdepth}",
+         f" RotSnapshots = {b(rotsnaps)}"]
     L += [f"INVARIANT {i}" for i in INVARIANTS]
     L += [f"PROPERTY {p}" for p in PROPERTIES]
     L += ["CONSTRAINT DepthBound", "CHECK_DEADLOCK FALSE"]
@@ -50,13 +51,13 @@ def cfg_lines(cap, eager, daskin, checknans, dev=None, datasets="DS3", nitems="N
 
 
 def explore(cap, eager, daskin, checknans, **kw):
-    name = f"life_{cap}_{int(eager)}{int(daskin)}{int(checknans)}"
+    name = f"life_{cap}_{int(eager)}{int(daskin)}{int(checknans)}" + ("_rs" if kw.get("rotsnaps") else "")
     res = tlc.run("MC_XLifecycle", cfg_lines(cap, eager, daskin, checknans, emit=True, **kw), name=name, workers=4, cache=True)
     return res
 
 
 def deviation_counterexample(cap, eager, daskin, checknans, dev):
-    res = tlc.run("MC_XLifecycle", cfg_lines(cap, eager, daskin, checknans, dev=dev), workers=4,
+    res = tlc.run("MC_XLifecycle", cfg_lines(cap, eager, daskin, checknans, dev=dev, rotsnaps=dev.startswith("Rot")), workers=4,
                   name=f"lifedev_{cap}_{dev}", expect_violation=True, coverage=False)
     return res
 
@@ -117,8 +118,8 @@ class Graph:
             paths.append(path)
         return paths, len(uncovered)
 
-    USE = ("transform", "rottransform", "query", "rotquery", "inverse", "bootfit", "serialize")
-    RESET = ("fit", "rotfit", "compute", "rotcompute", "deserialize")
+    USE = ("transform", "rottransform", "query", "rotquery", "inverse", "bootfit", "serialize", "rotserialize")
+    RESET = ("fit", "rotfit", "compute", "rotcompute", "deserialize", "rotdeserialize")
     ANSWER = ("transform", "rottransform", "query", "rotquery", "inverse")
 
     def _bfs(self, src, want, depth):
@@ -527,6 +528,15 @@ class Replayer:
             which = (1 + self.route_cycle % 3) if ph else 0
             dt2 = self.call("C13", "Deserialize", "attribute route", lambda: route(dt, which))
             self.model = self.call("C13", "C13_SnapshotFaithful", "deserialize()", lambda: type(self.model).deserialize(dt2))
+        elif k == "rotserialize":
+            dt = self.call("C13", "RotSerialize", "rotator.serialize()", lambda: self.rot.serialize())
+            self.snaps.append((dt, a["ph"]))
+        elif k == "rotdeserialize":
+            dt, ph = self.snaps[a["snap"] - 1]
+            from .codec_routes import route
+            which = (1 + self.route_cycle % 3) if ph else 0
+            dt2 = self.call("C13", "RotDeserialize", "attribute route", lambda: route(dt, which))
+            self.rot = self.call("C13", "C13_RotSnapshotFaithful", "Rotator.deserialize()", lambda: type(self.rot).deserialize(dt2))
         elif k == "rotfit":
             if self.rot is None:          # the same rotator object is fitted again on later rotfit steps
                 self.rot = fam.new_rot(compute=w.eager)
@@ -714,17 +724,23 @@ class Replayer:
                 self.M(why, prop, clause, f"after {a['kind']}: stored scores are not those of a fresh model fitted on {m['edata']}")
         r = tgt["r"]
         if r["fitted"] and self.rot is not None:
-            self.D(bool(self.rot.sorted) == r["sorted"], "C11", "C11_SortedExactlyOnce",
+            rd = a["kind"] == "rotdeserialize"
+            self.D(bool(self.rot.sorted) == r["sorted"], "C13" if rd else "C11", "C13_RotSnapshotFaithful" if rd else "C11_SortedExactlyOnce",
                    f"after {a['kind']}: rotator sorted flag {self.rot.sorted} != {r['sorted']}")
             allowed = [k for k in self.rot.data.keys() if self.rot.data._allow_compute.get(k, True)]
             lazy = any(isinstance(self.rot.data[k].data, dask.array.Array) for k in allowed)
             if w.daskin:
                 self.D(lazy == r["lazy"], "C12", "C12_ComputeMakesEager", f"after {a['kind']}: rotator lazy={lazy}, specification {r['lazy']}")
             # stored rotated results are those of a fresh rotator on a fresh model, in sorted order
-            if r["order"] == "sorted" and r["prep"] == r["base"] and a["kind"] in ("rotfit", "rotcompute", "deserialize", "compute", "fit"):
+            if r["order"] == "sorted" and r["prep"] == r["base"] and a["kind"] in ("rotfit", "rotcompute", "deserialize", "compute", "fit", "rotdeserialize"):
                 ref = w.refrot(r["base"])
                 why = same(fam.scores(self.rot), fam.scores(ref), what="rotated scores")
-                self.M(why, "C11", "C11_SortedExactlyOnce", f"after {a['kind']}: stored rotated scores are not those of a fresh rotator (sorted order) on {r['base']}")
+                self.M(why, "C13" if rd else "C11", "C13_RotSnapshotFaithful" if rd else "C11_SortedExactlyOnce",
+                       f"after {a['kind']}: stored rotated scores are not those of a fresh rotator (sorted order) on {r['base']}")
+            elif rd and r["order"] == "raw" and r["prep"] == r["base"]:
+                ref = w.refrot(r["base"], raw=True)
+                why = same(fam.scores(self.rot), fam.scores(ref), what="rotated scores (unsorted)")
+                self.M(why, "C13", "C13_RotSnapshotFaithful", f"after rotdeserialize: stored rotated scores are not those of the serialised (still unsorted) rotator on {r['base']}")
         # inputs untouched
         for d, h in w.digest0.items():
             self.D(digest(w.ds[d].objs()) == h, "C14", "C14_InputsUntouched", f"after {a['kind']}: user input {d} was modified")
